@@ -165,56 +165,30 @@ def check_format_agreement(chk, ix):
         else:
             _fail(chk, "Q4", rep, "descriptions=%s: read back %r" % (descriptions, got),
                   "the rerun file written for the scenarios %r is %r; read back as a features list it gives %r" % (want, text, got))
-    # (3) str(FileLocation) = "%s:%d"
+    # (3) a location prints as "<file>:<line>" (and as "<file>" without a line): FileLocation.__str__ evaluated
     fl = ix.cls("behave.model_core:FileLocation")
     sf = fl.methods.get("__str__")
-    chk.instance("Q4")
-    fmts = [n.left.value for n in ast.walk(sf.node) if isinstance(n, ast.BinOp) and isinstance(n.op, ast.Mod) and isinstance(n.left, ast.Constant)]
-    if fmts == ["%s:%d"]:
-        chk.ok("Q4", {"FileLocation.__str__": "%s:%d"}, nontrivial_key="str")
-    else:
-        _fail(chk, "Q4", sf, "location format %s" % fmts, "FileLocation.__str__ formats as %s, the rerun reader expects '<file>:<line>'" % fmts)
-    # (4) reader pattern
-    import re._parser as sre
-    flp = ix.cls("behave.runner_util:FileLocationParser")
-    lc = flp.lookup_const("pattern")
-    chk.instance("Q4")
-    pat = None
-    if lc and isinstance(lc[1], ast.Call) and lc[1].args and isinstance(lc[1].args[0], ast.Constant):
-        pat = lc[1].args[0].value
-    if pat is None:
-        raise AnalysisError("FileLocationParser.pattern not a literal regex")
-    tree = sre.parse(pat)
-    groups = dict(tree.state.groupdict)
-    ops = [str(op) for op, _ in tree]
-    # anchored, group filename (any), ':' literal, group line digits, anchored end
-    flat = pat.replace(" ", "")
-    ok = ("filename" in groups and "line" in groups and ops[0] == "AT" and ops[-1] == "AT"
-          and "(?P<filename>.*):(?P<line>\\d+)" in flat)
-    if ok:
-        chk.ok("Q4", {"reader_pattern": pat}, nontrivial_key="pattern")
-    else:
-        _fail(chk, "Q4", flp.methods["parse"], "reader pattern %r" % pat,
-              "FileLocationParser.pattern %r does not read '<anything>:<digits>' as (filename, line)" % pat)
-    pf = flp.methods["parse"]
-    chk.instance("Q4")
-    src = unparse(pf.node)
-    if "int(match.group('line'))" in src and "FileLocation(filename, line)" in src:
-        chk.ok("Q4", {"reader": "FileLocation(filename, int(line))"}, nontrivial_key="reader")
-    else:
-        _fail(chk, "Q4", pf, "reader construction", "FileLocationParser.parse does not build FileLocation(filename, int(line)) from the match")
-    # (5) list parser skips '#' and blank lines
-    lp = ix.func("behave.runner_util:FeatureListParser.parse")
-    chk.instance("Q4")
-    ok = False
-    for n in ast.walk(lp.node):
-        if isinstance(n, ast.If) and "startswith('#')" in unparse(n.test) and "not filename" in unparse(n.test) \
-                and any(isinstance(b, ast.Continue) for b in n.body):
-            ok = True
-    if ok:
-        chk.ok("Q4", {"list_parser": "skips blank and '#' lines"}, nontrivial_key="skip")
-    else:
-        _fail(chk, "Q4", lp, "comment skipping", "FeatureListParser.parse does not skip blank and '#' lines (the rerun banner would be read as a file name)")
+    if sf is None:
+        raise AnalysisError("anchor missing: FileLocation.__str__")
+    for filename, line, want in (("features/a.feature", 12, "features/a.feature:12"), ("a b.feature", 3, "a b.feature:3"), ("x.feature", None, "x.feature"),
+                                 ("x.feature", 0, "x.feature:0")):
+        it3 = Interp(ix, name="FileLocation.__str__")
+        it3.int_sat = 1000
+        st3 = State()
+        st3.frames = []
+        loc = st3.alloc(HObj(fl, {"filename": filename, "line": line}, label="location"))
+        outs = it3.call_function(st3, sf, [], {}, None, self_val=loc)
+        chk.absorb(it3)
+        chk.instance("Q4")
+        if len(outs) != 1 or outs[0][1] != "val" or not isinstance(outs[0][2], str):
+            raise AnalysisError("FileLocation.__str__ not foldable: %r" % [(k, v) for _, k, v in outs][:3])
+        if outs[0][2] == want:
+            chk.ok("Q4", {"FileLocation": [filename, line], "printed": want}, nontrivial_key=("str", filename, line))
+        else:
+            _fail(chk, "Q4", sf, "str(%r, %r) = %r" % (filename, line, outs[0][2]),
+                  "the location (%r, line %r) is printed as %r; the rerun reader expects %r" % (filename, line, outs[0][2], want))
+    # (4), (5): how the reader reads such lines back (pattern, int(line), comment and blank lines) is decided by L9, on
+    # concrete list files, by evaluation (rules_location.check_location_parsing) - not by the shape of the reader's source
 
 
 def check_outfile_mode(chk, ix):
